@@ -139,8 +139,12 @@ family!(F8, T8A4, T12A4, Z0, copy C1A1);
 family!(F9, T40A8, T16A16, T8A8, copy C16A16);
 family!(F10, T2A1P, T6A2, T1A1, copy C8A8);
 family!(F11, T12A4, T24A8, T6A2, T12A4);
+// payloads without drop glue (plain data), different layouts for the two union variants
+family!(F12, N8A8, N16A16, N4A4, T2A2);
+family!(F13, N40A8, N4A4, T4A4, copy C4A4);
+family!(F14, N4A4, N4A4, N4A4, N4A4, same);
 
-pub const NFAMILIES: usize = 12;
+pub const NFAMILIES: usize = 15;
 
 /// Dispatch a generic function over the family index.
 #[macro_export]
@@ -158,7 +162,10 @@ macro_rules! with_family {
             8 => $f::<$crate::family::F8>($($args),*),
             9 => $f::<$crate::family::F9>($($args),*),
             10 => $f::<$crate::family::F10>($($args),*),
-            _ => $f::<$crate::family::F11>($($args),*),
+            11 => $f::<$crate::family::F11>($($args),*),
+            12 => $f::<$crate::family::F12>($($args),*),
+            13 => $f::<$crate::family::F13>($($args),*),
+            _ => $f::<$crate::family::F14>($($args),*),
         }
     };
 }
